@@ -396,7 +396,61 @@ class Rewriter:
             text = self.r6_index(scope, text)
         if "R16" in u.rw:
             text = self.r16_slice_eq(scope, text)
+        if "R23" in u.rw:
+            text = self.r23_option_closures(scope, text)
         return text
+
+    def r23_option_closures(self, scope, text):
+        """`RECV.is_some_and(|v| E)` -> `(match RECV { Some(v) => E, None => false })`,
+        `RECV.is_none_or(|v| E)` -> `(match RECV { None => true, Some(v) => E })`  (the std definitions)"""
+        while True:
+            m = rl.mask(text)
+            mt = re.search(r"\.\s*(is_some_and|is_none_or)\s*\(\s*\|\s*(\w+)\s*\|", m)
+            if not mt:
+                return text
+            op = m.index("(", mt.start())
+            cl = rl.match_close(m, op)
+            body = text[mt.end():cl].strip()
+            # receiver: walk left over a postfix chain
+            i = mt.start()
+            while i > 0:
+                c = m[i - 1]
+                if c.isalnum() or c in "_.?:":
+                    i -= 1
+                elif c in ")]":
+                    # find matching opener
+                    depth = 0
+                    j = i - 1
+                    while j >= 0:
+                        if m[j] in ")]":
+                            depth += 1
+                        elif m[j] in "([":
+                            depth -= 1
+                            if depth == 0:
+                                break
+                        j -= 1
+                    i = j
+                elif c in " \t\n":
+                    # only continue across whitespace inside a method chain (`\n    .as_ref()`)
+                    k = i - 1
+                    while k > 0 and m[k - 1] in " \t\n":
+                        k -= 1
+                    if m[i] == "." or (i < len(m) and m[i:].lstrip().startswith(".")):
+                        prev = m[k - 1] if k > 0 else " "
+                        if prev.isalnum() or prev in "_)]?":
+                            i = k
+                            continue
+                    break
+                else:
+                    break
+            recv = text[i:mt.start()].strip()
+            v = mt.group(2)
+            if mt.group(1) == "is_some_and":
+                new = "(match %s { Some(%s) => %s, None => false })" % (recv, v, body)
+            else:
+                new = "(match %s { None => true, Some(%s) => %s })" % (recv, v, body)
+            self.note("R23", scope, text[i:cl + 1], new)
+            text = text[:i] + new + text[cl + 1:]
 
     def r16_slice_eq(self, scope, text):
         """`X.slice(a, b) == RHS` (result of R6 on `&X[a..b] == RHS`) -> `bytes_eq(X.slice(a, b), RHS)`"""
